@@ -949,6 +949,14 @@ func (r *Runner) Run(ctx context.Context, node syntax.Node) error {
 	if _, ok := node.(*syntax.File); ok || r.exit.exiting {
 		r.trapCallback(ctx, r.callbackExit, "exit")
 	}
+	// The cancellation is only turned into an error by [Runner.stop]. If it struck during
+	// the last command (e.g. "wait", which returns status zero once its background jobs were
+	// stopped) or during the exit trap (whose status is discarded), no call to stop followed,
+	// so record it here: a cancelled Run must not report success. A failure status that the
+	// interrupted command already produced (e.g. "read" returning 1) is left alone.
+	if r.exit.ok() {
+		r.exit.fatal(ctx.Err())
+	}
 	maps.Insert(r.Vars, r.writeEnv.Each)
 	// Return the first of: a fatal error, a non-fatal handler error, or the exit code.
 	if err := r.exit.err; err != nil {
